@@ -443,7 +443,7 @@ package dnsmsg
 //@ func ReleaseMsg(m *Msg)
 //@   props C01 C20
 //@   requires m != nil && forall(k, 0, len(m.Questions), m.Questions[k] != nil) && okRecs(m.Answers) && okRecs(m.Authorities) && okRecs(m.Additionals)
-//@   modifies *
+//@   modifies pkgheaps(dnsmsg), bytes()
 //@   ensures [C20:buffers-untouched] rootBytesKept()
 //@   loop 1:
 //@     invariant forall(k, 0, len(m.Questions), m.Questions[k] != nil) && okRecs(m.Answers) && okRecs(m.Authorities) && okRecs(m.Additionals)
